@@ -125,9 +125,12 @@ impl Point {
                 z: crate::fields::fp64::SM2_MODP_MONT_ONE,
             })
         }
-        // uncompressed Point
-        else if flag == 0x04 {
+        // uncompressed Point (0x04) or SEC1 hybrid form (0x06 / 0x07: same layout, tag carries the parity of y)
+        else if flag == 0x04 || flag == 0x06 || flag == 0x07 {
             if b.len() != 65 {
+                return Err(Sm2Error::InvalidPublic);
+            }
+            if flag != 0x04 && (b[64] & 0x01) != (flag & 0x01) {
                 return Err(Sm2Error::InvalidPublic);
             }
             let x_raw = u256_from_be_bytes(&b[1..33]);
